@@ -133,7 +133,7 @@ class P(Prop):
             elif r < 0.8:
                 out.append({"kind": "simp", "W": W, "mode": "min"})
             else:
-                out.append({"kind": "simplify", "W": W, "mode": "min"})
+                out.append({"kind": "simplify", "W": W, "mode": "min", "verbose": rng.random() < 0.5})
         for _ in range(6 if tier == "quick" else 40):
             # the documented maximising variants of the simplification front end (finding D19 on this tree)
             n = rng.randrange(4, 8)
@@ -268,7 +268,7 @@ class P(Prop):
                 r = self.Z.optimalSimplification(t, cost4, "G", self.MODES[case["mode"]])
             else:
                 mode = self.Z.MODE_SIMPLIFY_FREE if case["mode"] == "min" else self.Z.MODE_SIMPLIFY_FREE_MAXIMIZE
-                r = self.Z.simplify(t, cost3, mode, False)
+                r = self.Z.simplify(t, cost3, mode, bool(case.get("verbose", False)))
             return {"idx": [int(r.getObs(i).position.getX()) for i in range(r.size())]}
         if k == "stops":
             cap = self.capture_stops(case)
